@@ -2,6 +2,7 @@ package main
 
 import (
 	"fmt"
+	"os"
 	"sort"
 	"strings"
 
@@ -40,6 +41,8 @@ func (e *Engine) resetPath(prefix []int) {
 	e.fpScanned = 0
 	e.started = map[*Solver]bool{}
 	e.facts = map[int]bool{}
+	e.varRange = map[*Term]rng{}
+	e.rangeMemo = map[*Term]rng{}
 	e.decisions = nil
 	e.stubs = map[string]value{}
 	e.inStub = map[string]bool{}
@@ -63,6 +66,7 @@ func (e *Engine) resetPath(prefix []int) {
 	e.timerFires = 0
 	e.slept = nil
 	e.chanSeq = 0
+	e.pathCopier = nil
 }
 
 // runPath executes the harness once under the given decision prefix.
@@ -108,8 +112,15 @@ func (e *Engine) runPath(h *ssa.Function, prefix []int) {
 			e.allCovers[c] = true
 		}
 	}()
-	if init := h.Pkg.Func("init"); init != nil {
-		e.callFn(init, nil)
+	if e.snapshot_ != nil {
+		e.restoreSnapshot()
+	} else {
+		if init := h.Pkg.Func("init"); init != nil {
+			e.callFn(init, nil)
+		}
+		if !e.snapshotUnsafe && !e.pinMode && os.Getenv("GOSYM_NOSNAPSHOT") == "" {
+			e.takeSnapshot()
+		}
 	}
 	e.callFn(h, nil)
 	if e.endReq != nil {
